@@ -265,6 +265,9 @@ def _bytes_escape(b: bytes) -> str:
         body = body.replace("'", "\\'")
     return body
 
+# Same spelling as ast.unparse() for floats that overflow: "inf" would read back as a name.
+_INFSTR = "1e" + repr(sys.float_info.max_10_exp + 1)
+
 class PyvalColorizer:
     """
     Syntax highlighter for Python values.
@@ -364,7 +367,7 @@ class PyvalColorizer:
                 int_repr = hex(pyval)
             self._output(int_repr, self.NUMBER_TAG, state)
         elif pyvaltype is float or pyvaltype is complex:
-            self._output(str(pyval), self.NUMBER_TAG, state)
+            self._output(str(pyval).replace('inf', _INFSTR), self.NUMBER_TAG, state)
         elif pyvaltype is str:
             self._colorize_str(pyval, state, '', escape_fcn=_str_escape)
         elif pyvaltype is bytes:
